@@ -50,6 +50,9 @@ def explore(ctx, art):
     # cancelling it (no Stop()), with a request of the server's own in flight on every peer's connection (acknowledged,
     # never answered, context without deadline)
     lines += ["case udp srvstop k%dx stop" % k for k in (1, 3)]
+    # ... and a datagram server whose application closed the peers' connections and whose peers came back at once (a new
+    # connection per peer before any housekeeping pass): the callbacks of the old connections too run exactly once
+    lines += ["case udp srvstop k%dr stop" % k for k in (1, 3)]
     # a stream server accepts a connection whose peer is already gone: the signalling message written during the set-up
     # fails; the connection handed to OnNewConn must still complete its done signal and run its callbacks once
     lines += ["case tcp srvstop deadpeer stop"]
